@@ -62,7 +62,7 @@ Lemma add_deposit_mig : forall pid a amt s s', add_deposit pid a amt s = Ok s' -
 Proof.
   intros pid a amt s s'. unfold add_deposit. destruct (sget Z.eqb pid (props (gov s))) as [p|]; [|discriminate].
   destruct (p_status p); try discriminate;
-    (destruct (bal_of s a (bond_denom (cfg s)) - locked_of s a (bond_denom (cfg s)) <? amt); [discriminate|]; intros H; inversion H; cbn [mig set_gov]; apply pay_mig).
+    (destruct ((amt <? 0) || (bal_of s a (bond_denom (cfg s)) - Z.max 0 (locked_of s a (bond_denom (cfg s))) <? amt)); [discriminate|]; intros H; inversion H; cbn [mig set_gov]; apply pay_mig).
 Qed.
 
 Lemma submit_mig : forall a amt x vp m s s', submit_proposal a amt x vp m s = Ok s' -> mig s' = mig s.
